@@ -30,6 +30,9 @@ from ..poly import Poly
 from ..traceutil import statements, words, chain, decisions_text, short
 from ..values import *
 
+# renderers of numpy that are known not to give fixed-point notation at a number of decimal places
+KNOWN_NOT_FIXED_POINT = ("numpy.format_float_scientific",)
+
 LE = "fmt._line_endings"
 
 
@@ -151,6 +154,13 @@ def check_number(check, P):
         else:
             check.ok("R2", "number(): rendered return dominated by the finiteness guard")
         # R3 idiom
+        stale = [e for e in path.trace if e.kind == "NOTE" and e.data.get("what") == "memoised-call" and e.data.get("reads")]
+        if stale and path.outcome == "return":
+            e = stale[0]
+            check.violation("R3", "number:memoised-state",
+                            f"number() renders through the memoised {e.data['func']}, whose result is reused per argument although it reads "
+                            f"{', '.join(e.data['reads'])}: state that other methods change (a rendering made before the change is served afterwards)", [d])
+            continue
         if sv is not None and len(sv.parts) == 1 and isinstance(sv.parts[0], NumFmt) and sv.parts[0].value == v:
             notes = [e for e in path.trace if e.kind == "NOTE" and e.data.get("what") == "format_float_positional"]
             if not notes:
@@ -171,6 +181,10 @@ def check_number(check, P):
         elif sv is not None and len(sv.parts) == 1 and isinstance(sv.parts[0], StrOf) and sv.parts[0].value == v \
                 and re.fullmatch(r"\.\{fmt\._decimal_places\}f", sv.parts[0].spec or ""):
             check.ok("R3", "number(): fixed-point format spec with the decimal-places field")
+        elif isinstance(r, Unk) and any(k in r.tag for k in KNOWN_NOT_FIXED_POINT):
+            check.violation("R3", "number:render-idiom", f"number() renders with {r.tag}: not a fixed-point rendering at the configured number of decimal places", [d])
+        elif isinstance(r, Unk):
+            check.undecided("R3", f"number() returns {r!r}: the result of a call the analysis does not model")
         else:
             check.violation("R3", "number:render-idiom",
                             f"number() returns {r!r}: not a recognised fixed-point rendering of its argument "
@@ -208,7 +222,7 @@ def check_parameters(check, P):
                 continue
             sv = I.as_str(path.value)
             if sv is None:
-                check.violation("R4", f"parameters:{label}:opaque", f"parameters() returns {path.value!r}", [dtxt])
+                check.undecided("R4", f"parameters({dict(entries)!r}) returns {path.value!r}: the analysis lost track of how it is built")
                 continue
             got = []
             text_ok = True
